@@ -406,8 +406,8 @@ theorem matmulNd_stack (a b : A) (s n m p : Nat) (ha : a.WF) (hb : b.WF)
   unfold matmulNd
   simp only [Arr.ndim, Arr.len, hsa, hsb, hla, hlb, List.length_cons, List.length_nil, Res.idx]
   simp only [Nat.zero_add, Nat.reduceAdd, Nat.reduceSub, ge_iff_le, Nat.le_refl, if_true, List.getElem?_cons_succ,
-    List.getElem?_cons_zero, Res.bind_ok, Nat.reduceLT, if_false, List.drop_succ_cons, List.drop_zero,
-    List.prod_cons, List.prod_nil, Nat.mul_one, List.set_cons_succ, List.set_cons_zero]
+    List.getElem?_cons_zero, Res.bind_ok, List.drop_succ_cons, List.drop_zero,
+    List.prod_cons, List.prod_nil, Nat.mul_one]
   simp only [List.length_cons, List.length_nil, Nat.zero_add, Nat.reduceAdd, Nat.reduceLT, if_false, Nat.reduceSub,
     List.set_cons_succ, List.set_cons_zero]
   rw [if_neg (by omega)]
@@ -417,7 +417,7 @@ theorem matmulNd_stack (a b : A) (s n m p : Nat) (ha : a.WF) (hb : b.WF)
   rw [collectRes_map _ _ (fun t => mm22 ⟨slab a (n * m) t, [n, m]⟩ ⟨slab b (m * p) t, [m, p]⟩ n m p)]
   · simp only [Res.bind_ok, reshape, List.flatMap_map, ms33]
     rw [if_pos]
-    rw [length_flatMap_uniform _ _ (n * p) (by intro t _; simp [mm22, length_flatMap_range])]
+    rw [length_flatMap_uniform _ _ (n * p) (by intro t _; simp [mm22])]
     simp
   · intro t ht
     have ht' : t < s := by simpa using ht
@@ -430,7 +430,7 @@ theorem ms33_get (a b : A) (s n m p t i j : Nat) (ht : t < s) (hi : i < n) (hj :
   unfold Arr.get? ms33
   have hr : ravel [s, n, p] [t, i, j] = t * (n * p) + (i * p + j) := by simp [ravel]
   simp only [hr]
-  rw [getElem?_flatMap_uniform (List.range s) _ (n * p) (by intro t _; simp [mm22, length_flatMap_range]) t
+  rw [getElem?_flatMap_uniform (List.range s) _ (n * p) (by intro t _; simp [mm22]) t
     (by simpa using ht) (i * p + j) (idx2_lt hi hj)]
   simp only [List.getElem_range, mm22]
   rw [getElem?_flatMap_range n p _ i j hi hj]
@@ -448,7 +448,7 @@ theorem slab_ms33 (a b : A) (s n m p t : Nat) (ht : t < s) :
     slab (ms33 a b s n m p) (n * p) t
       = (mm22 ⟨slab a (n * m) t, [n, m]⟩ ⟨slab b (m * p) t, [m, p]⟩ n m p).elems := by
   have hlen : ∀ t, (mm22 ⟨slab a (n * m) t, [n, m]⟩ ⟨slab b (m * p) t, [m, p]⟩ n m p).elems.length = n * p := by
-    intro t; simp [mm22, length_flatMap_range]
+    intro t; simp [mm22]
   apply List.ext_getElem?
   intro q
   show (((ms33 a b s n m p).elems.drop (t * (n * p))).take (n * p))[q]? = _
